@@ -41,6 +41,8 @@ def run(tier, seed):
     rep = Report("C07", tier, seed)
     rep.add_proof("ColdRecordsInWindow")
     rep.add_mc("MC_OutFile", tlc.model_check("MC_OutFile", "MC_OutFile.cfg" if tier == "thorough" else "MC_OutFile_quick.cfg", must_take=["Step", "Finish"]))
+    rep.add_mc("MC_Ladim(liveness)", tlc.model_check("MC_Ladim", "MC_Ladim_live.cfg", must_take=["Call"], timeout=1800),
+               note="FairSpec (weak fairness, no state constraint): every run ends (Terminates) and has then written exactly ceil(nsteps / period) records (AllRecordsWritten)")
     rep.add_mc("MC_FileName", tlc.model_check("MC_FileName", "MC_FileName.cfg" if tier == "thorough" else "MC_FileName_quick.cfg", must_take=["Grow"]))
     scs = scenarios(tier, seed)
     traces = pmap("harness.e2e", "run_e2e", scs)
